@@ -125,6 +125,33 @@ def handle (w cap digs : Nat) (op : String) (args : List String) (got : String) 
       (if a % p = 0 ∨ a % q = 0 then ["crt-a=0mod"] else [])
     some { model := if tooLong && got == "err" then "err" else out pred,
            spec := if tooLong then spec ++ ["err"] else spec, tags := tags }
+  | "nt_mxp_sim", [as_, bs, ds, es, ms] => do
+    let a ← pI w as_
+    let b ← pI w bs
+    let d ← pI w ds
+    let e ← pI w es
+    let m ← pI w ms
+    let tooLong := long as_ || long bs || long ds || long es || long ms
+    let pred := NtMxp.mxpSim w a b d e m
+    -- specification: a^b·d^e mod m for exponents ≥ 0; negative exponents are outside the contract (the code ignores the sign)
+    let math := fmt (powModI a b.natAbs m * powModI d e.natAbs m % m)
+    let spec : List String :=
+      if m = 1 then ["0:u1"]
+      else if m ≤ 0 ∨ b < 0 ∨ e < 0 then [out pred]
+      else if m % 2 = 0 then [math, "err"]
+      else [math]
+    let lb := Rec.bitLen b.natAbs
+    let le := Rec.bitLen e.natAbs
+    let tags := ["mxp-sim"] ++
+      (if m = 1 then ["sim-m=1"] else if m ≤ 0 then ["sim-m<=0-err"] else if m % 2 = 0 then ["sim-even-m-err"] else
+        (if b = 0 ∧ e = 0 then ["sim-both-zero"] else if b = 0 then ["sim-b=0"] else if e = 0 then ["sim-e=0"] else []) ++
+        (if lb < le then ["sim-b-shorter"] else if lb > le then ["sim-b-longer"] else ["sim-equal-length"]) ++
+        (if b < 0 ∨ e < 0 then ["sim-neg-exp-sign-ignored"] else []) ++
+        (if a % m = 0 ∨ d % m = 0 then ["sim-base=0modm"] else []) ++
+        (if a < 0 ∨ d < 0 then ["sim-base<0"] else []) ++
+        (if (List.range (max lb le)).any (fun i => NtMxp.bit b.natAbs i && NtMxp.bit e.natAbs i) then ["sim-both-bits"] else []))
+    some { model := if tooLong && got == "err" then "err" else out pred,
+           spec := if tooLong then spec ++ ["err"] else spec, tags := tags }
   | _, _ => none
 
 end Driver.C09Mxp
